@@ -29,7 +29,7 @@ try:
     want = set(base["stable_pass"])
     print("baseline: %d of %d stable-pass tests pass; missing: %s" % (len(want & passed), len(want), sorted(want - passed)[:10]))
     m = sh("cd %s && /venv/bin/python -m server.monitor 2>&1 | grep -E '^ *Total'" % wt, env=env)
-    print("monitor:", m.stdout.strip(), "   (expected  2015 | 81 | 51 | 1587 | 29 | 0 | 278 | 0 | 0)")
+    print("monitor:", m.stdout.strip(), "   (expected  2039 | 81 | 27 | 1587 | 29 | 0 | 278 | 0 | 0)")
     os.remove(xml)
 finally:
     sh("git -C /repo worktree remove --force %s" % wt)
